@@ -435,8 +435,8 @@ def cross_packages(sc, quick):
         things = [("rec", L("XRec"), "plain"), ("enum", L("XEnum"), "plain"), ("flags", L("XFlags"), "plain"), ("int", L("XInt"), "plain"), ("str", L("XStr"), "plain"),
                   ("union", L("XUnion"), "union"), ("unionN", L("XUnionN"), "nullable"), ("tagged", L("XTagged"), "union"), ("recFirst", L("XRecFirst"), "union"),
                   ("enumFirst", L("XEnumFirst"), "union"), ("gunion", L("XGUnion", P("string")), "union"), ("gunionRec", L("XGUnion", L("XRec")), "union"),
-                  ("opt", L("XOpt"), "nullable"), ("gopt", L("XGOpt", L("XRec")), "nullable"), ("vec", L("XVec"), "seq"), ("vec3", L("XVec3"), "seq"),
-                  ("gvec", L("XGVec", L("XEnum")), "seq"), ("arr", L("XArr"), "seq"), ("arrF", L("XArrF"), "seq"), ("img", L("XImg", P("float64")), "seq"),
+                  ("opt", L("XOpt"), "nullable"), ("gopt", L("XGOpt", L("XRec")), "nullable"), ("vec", L("XVec"), "seq"), ("vec3", L("XVec3"), "fixedseq"),
+                  ("gvec", L("XGVec", L("XEnum")), "seq"), ("arr", L("XArr"), "seq"), ("arrF", L("XArrF"), "fixedseq"), ("img", L("XImg", P("float64")), "seq"),
                   ("map", L("XMap"), "seq"), ("gmap", L("XGMap", L("XRec")), "seq"), ("pair", L("XPair", L("XInt"), L("XUnion")), "plain"),
                   ("box", L("XBox", L("XEnum")), "plain"), ("boxRec", L("XBox", L("XRec2")), "plain"), ("pairIS", L("XPairIS"), "plain"), ("union2", L("XUnion2"), "union"),
                   ("rec2", L("XRec2"), "plain"), ("enum2", L("XEnum2"), "plain"),
@@ -449,9 +449,9 @@ def cross_packages(sc, quick):
         defs.append({"kind": "record", "name": "UVector", "tparams": [], "fields": [(n, ("vec", t, None)) for n, t, k in things]})
         defs.append({"kind": "record", "name": "UFixedVector", "tparams": [], "fields": [(n, ("vec", t, 2)) for n, t, k in things]})
         defs.append({"kind": "record", "name": "UMapValue", "tparams": [], "fields": [(n, ("map", P("string"), t)) for n, t, k in things]})
-        defs.append({"kind": "record", "name": "UArray", "tparams": [], "fields": [(n, ("arr", t, ("rank", 1, None))) for n, t, k in things if k == "plain"]})
-        defs.append({"kind": "record", "name": "UUnionCase", "tparams": [], "fields": [(n, ("union", False, [("mine" + n[:1].upper() + n[1:], P("bool")), ("theirs" + n[:1].upper() + n[1:], t)])) for n, t, k in things if k in ("plain", "seq")]})
-        defs.append({"kind": "record", "name": "UNullableUnionCase", "tparams": [], "fields": [(n, ("union", True, [("my" + n[:1].upper() + n[1:], P("bool")), ("their" + n[:1].upper() + n[1:], t)])) for n, t, k in things if k in ("plain", "seq")]})
+        defs.append({"kind": "record", "name": "UArray", "tparams": [], "fields": [(n, ("arr", t, ("rank", 1, None))) for n, t, k in things if k in ("plain", "fixedseq")]})
+        defs.append({"kind": "record", "name": "UUnionCase", "tparams": [], "fields": [(n, ("union", False, [("mine" + n[:1].upper() + n[1:], P("bool")), ("theirs" + n[:1].upper() + n[1:], t)])) for n, t, k in things if k in ("plain", "seq", "fixedseq")]})
+        defs.append({"kind": "record", "name": "UNullableUnionCase", "tparams": [], "fields": [(n, ("union", True, [("my" + n[:1].upper() + n[1:], P("bool")), ("their" + n[:1].upper() + n[1:], t)])) for n, t, k in things if k in ("plain", "seq", "fixedseq")]})
         defs.append({"kind": "record", "name": "ULocalGenericArg", "tparams": [], "fields": [(n, ("named", "UBox", [t])) for n, t, k in things]})
         defs.append({"kind": "record", "name": "UTheirGenericArg", "tparams": [], "fields": [(n, L("XPair", t, P("int32"))) for n, t, k in things]})
         for n, t, k in things:
